@@ -47,6 +47,9 @@ try:
         shutil.copy(src / "patch.diff", dest / "patch.diff")
         if (src / "check.py").exists():
             shutil.copy(src / "check.py", dest / "check.py")
+        for extra in src.glob("golden*"):  # recordings the author's check.py reads
+            if extra.stat().st_size < 3_000_000:
+                shutil.copy(extra, dest / extra.name)
     (dest / "meta.json").write_text(json.dumps(record, indent=1))
 finally:
     shutil.rmtree(tmp, ignore_errors=True)
